@@ -50,7 +50,7 @@ func (c c18caps) line() string {
 	if c.enable {
 		s = append(s, "ENABLE")
 	}
-	return strings.Join(append(s, "UIDPLUS", "MOVE", "NAMESPACE", "ESEARCH"), " ")
+	return strings.Join(append(s, "UIDPLUS", "MOVE", "NAMESPACE", "ESEARCH", "UNAUTHENTICATE"), " ")
 }
 
 func runC18(r *R) {
@@ -61,6 +61,12 @@ func runC18(r *R) {
 	enableWhat := t.Choose(3)     // 0 nothing, 1 UTF8=ACCEPT, 2 IMAP4rev2
 	netMode := t.Choose(4)
 	n := 1 + t.Choose(20)
+	// optionally the caller returns to the not-authenticated state in the middle (RFC 8437) and logs in again:
+	// everything that was enabled is off again, and the pre-authentication capabilities apply in between
+	reauthAt := -1
+	if t.Choose(4) == 0 {
+		reauthAt = t.Choose(n)
+	}
 	var ops []c02op
 	selected := false
 	for i := 0; i < n; i++ {
@@ -106,6 +112,7 @@ func runC18(r *R) {
 	var cli *simnet.Conn
 	var srv *scriptSrv
 	var authOff, enabledOff int64 = -1, -1 // offsets in the client->server stream at which the server state changed
+	var unauthOff, reauthOff int64 = -1, -1 // UNAUTHENTICATE received; LOGIN received after it
 	var enabledSentOff int64 = -1          // offset in the server->client stream after the ENABLED response
 	var srvPipe int
 	r.Sim(cfg, func() {
@@ -157,9 +164,20 @@ func runC18(r *R) {
 				switch c.Name {
 				case "CAPABILITY":
 					srv.send("* CAPABILITY "+caps.line(), c.Tag+" OK done")
+				case "UNAUTHENTICATE":
+					authed = false
+					if unauthOff < 0 {
+						unauthOff = int64(len(srv.all) - len(srv.buf))
+					}
+					srv.send(c.Tag + " OK back to the not authenticated state")
 				case "LOGIN":
 					authed = true
-					authOff = int64(len(srv.all) - len(srv.buf))
+					if authOff < 0 {
+						authOff = int64(len(srv.all) - len(srv.buf))
+					}
+					if unauthOff >= 0 && reauthOff < 0 {
+						reauthOff = int64(len(srv.all) - len(srv.buf))
+					}
 					if t2 := len(c.Raw) % 2; t2 == 0 {
 						srv.send(c.Tag + " OK [CAPABILITY " + post.line() + "] logged in")
 					} else {
@@ -208,7 +226,17 @@ func runC18(r *R) {
 			case 2:
 				c.Enable(imap.CapIMAP4rev2).Wait()
 			}
-			for _, o := range ops {
+			for oi, o := range ops {
+				if oi == reauthAt {
+					r.Probe("unauthenticate_then_login")
+					if err := c.Unauthenticate().Wait(); err != nil && !isIMAPStatusErr(err) {
+						return
+					}
+					if err := c.Login(user, pass).Wait(); err != nil && !isIMAPStatusErr(err) {
+						return
+					}
+					c.Select("INBOX", nil).Wait()
+				}
 				err := c02Issue(c, o)
 				r.Tracef("%s -> %v", clipStr(o.String(), 200), err)
 				if err != nil && !isIMAPStatusErr(err) {
@@ -225,7 +253,7 @@ func runC18(r *R) {
 		return
 	}
 	r.CheckLiveness(false)
-	c18Judge(r, cli, srv, pre, post, authOff, enabledOff, enabledSentOff, srvPipe)
+	c18Judge(r, cli, srv, pre, post, authOff, enabledOff, enabledSentOff, srvPipe, unauthOff, reauthOff)
 	if len(r.viol) > 0 {
 		r.Tracef("pre-auth caps: %s | post-auth caps: %s | greeting caps=%v enable=%d", pre.line(), post.line(), greetCaps, enableWhat)
 		r.Tracef("client->server: %q", clipStr(string(cli.Written()), 2500))
@@ -233,7 +261,7 @@ func runC18(r *R) {
 	}
 }
 
-func c18Judge(r *R, cli *simnet.Conn, srv *scriptSrv, pre, post c18caps, authOff, enabledOff, enabledSentOff int64, srvPipe int) {
+func c18Judge(r *R, cli *simnet.Conn, srv *scriptSrv, pre, post c18caps, authOff, enabledOff, enabledSentOff int64, srvPipe int, unauthOff, reauthOff int64) {
 	stream := cli.Written()
 	// literal decisions in stream order tell the splitter which synchronising literals were followed by a payload
 	var syncEvents []srvLitEvent
@@ -285,6 +313,9 @@ func c18Judge(r *R, cli *simnet.Conn, srv *scriptSrv, pre, post c18caps, authOff
 		if authOff >= 0 && int64(ln.Start) >= authOff {
 			caps = post
 		}
+		if unauthOff >= 0 && int64(ln.Start) >= unauthOff && (reauthOff < 0 || int64(ln.Start) < reauthOff) {
+			caps = pre
+		}
 		for _, l := range ln.Literals {
 			if l.NonSync {
 				r.Nontrivial = true
@@ -300,7 +331,11 @@ func c18Judge(r *R, cli *simnet.Conn, srv *scriptSrv, pre, post c18caps, authOff
 		}
 		// quoted strings: 8-bit only when permitted; CR/LF/NUL never
 		if ln.Complete {
-			c18Quoted(r, ln, caps, enabledOff, enabledSentOff, writtenAt, deliveredAt)
+			en := enabledOff
+			if unauthOff >= 0 && int64(ln.Start) >= unauthOff {
+				en = -1 // RFC 8437: UNAUTHENTICATE turns off everything that ENABLE had turned on
+			}
+			c18Quoted(r, ln, caps, en, enabledSentOff, writtenAt, deliveredAt)
 		}
 	}
 	// synchronisation: payload only after the continuation request was delivered; none after a refusal
